@@ -396,6 +396,14 @@ func main() {
 	defer out.Flush()
 	r := gen.New()
 	thorough := gen.Thorough()
+	switch os.Getenv("VERIF_C02_ONLY") {
+	case "unkcodec":
+		unkCodecCases()
+		return
+	case "oore":
+		ooreCases()
+		return
+	}
 	corpus()
 	corpus2()
 	nFetch, nIter := 600, 150
@@ -447,6 +455,8 @@ func main() {
 	readVsCases(thorough)
 	growCases(thorough)
 	chunkCases(thorough)
+	unkCodecCases()
+	ooreCases()
 	expiredCases(r, thorough)
 	readerCases(r, thorough)
 }
